@@ -365,7 +365,8 @@ pub(crate) fn add(ctx: &mut TulispContext) {
         params: TulispObject,
         rest: TulispObject,
     ) -> Result<TulispObject, Error> {
-        let body = if rest.car()?.as_string().is_ok() {
+        // A leading string is a docstring only when other forms follow it.
+        let body = if rest.car()?.as_string().is_ok() && rest.cdr()?.consp() {
             rest.cdr()?
         } else {
             rest
@@ -386,7 +387,8 @@ pub(crate) fn add(ctx: &mut TulispContext) {
 
     #[crate_fn_no_eval(add_func = "ctx")]
     fn lambda(params: TulispObject, rest: TulispObject) -> Result<TulispObject, Error> {
-        let body = if rest.car()?.as_string().is_ok() {
+        // A leading string is a docstring only when other forms follow it.
+        let body = if rest.car()?.as_string().is_ok() && rest.cdr()?.consp() {
             rest.cdr()?
         } else {
             rest
@@ -508,7 +510,8 @@ pub(crate) fn add(ctx: &mut TulispContext) {
         params: TulispObject,
         rest: TulispObject,
     ) -> Result<TulispObject, Error> {
-        let body = if rest.car()?.as_string().is_ok() {
+        // A leading string is a docstring only when other forms follow it.
+        let body = if rest.car()?.as_string().is_ok() && rest.cdr()?.consp() {
             rest.cdr()?
         } else {
             rest
